@@ -35,6 +35,18 @@ def _loop(*a):
 
 J._distance_loop = _loop
 
+from distance3d.gjk import _gjk_original as GO
+_orig_sub = GO.distance_subalgorithm_with_backup_procedure
+
+
+def _sub(simplex, solution, backup):
+    r = _orig_sub(simplex, solution, backup)
+    _info["orig_last"] = (int(len(simplex)), float(r[0].distance_squared), bool(backup))
+    return r
+
+
+GO.distance_subalgorithm_with_backup_procedure = _sub
+
 
 def run_op(op, c1, c2):
     if op.get("swap"):
@@ -51,8 +63,13 @@ def run_op(op, c1, c2):
             d, a, b, simplex = gjk.gjk_distance_jolt(c1, c2, **kw)
             out.update(d=float(d), a=arr(a), b=arr(b))
         elif name == "gjk_original":
+            _info.pop("orig_last", None)
             r = gjk.gjk_distance_original(c1, c2)
             out.update(d=float(r[0]), a=arr(r[1]), b=arr(r[2]))
+            last = _info.get("orig_last")
+            if last is not None:
+                # (simplex size, distance^2 of the last (backup) solution): the exit forces d = 0 whenever the size is 4
+                out.update(last_simplex=last[0], last_d2=last[1])
         elif name == "nesterov":
             r = gjk.gjk_nesterov_accelerated(c1, c2, **kw)
             out.update(contact=bool(r[0]), d=float(r[1]))
